@@ -160,6 +160,28 @@ func subMB() Sub {
 		}}
 }
 
+func subMM() Sub {
+	return Sub{Kind: "mm",
+		Marks: []MarkRec{{gM, 0, 10, 20}, {gN, 1, 5, -5}},
+		Bases: []BaseRec{
+			{gM, []*[2]int{{100, 200}, {7, 8}}},
+			{gN, []*[2]int{nil, {50, 60}}},
+		}}
+}
+
+// GSUB 8.1: the substituted glyph X is itself backtrack / lookahead context,
+// so the processing order matters on runs of A
+func subR8(back, look bool) Sub {
+	s := Sub{Kind: "r8", Map: [][2]int{{gA, gX}, {gM, gY}, {gL, gA}}, Covs: [][]int{}, Covs3: [][]int{}}
+	if back {
+		s.Covs = [][]int{{gA, gB, gM}}
+	}
+	if look {
+		s.Covs3 = [][]int{{gA, gL}}
+	}
+	return s
+}
+
 type simpleKind struct {
 	name string
 	mk   func() Sub
@@ -169,6 +191,11 @@ var simpleKinds = []simpleKind{
 	{"gsub1.1", subS1}, {"gsub1.2", subS2}, {"gsub2.1", subMul}, {"gsub3.1", subAlt},
 	{"gsub4.1/a", subLigA}, {"gsub4.1/b", subLigB}, {"gsub4.1/c", subLigC},
 	{"gpos1.1", subP1}, {"gpos1.2", subP2}, {"gpos2.1", subPP1}, {"gpos2.2", subPP2}, {"gpos4.1", subMB},
+	{"gpos6.1", subMM},
+	{"gsub8.1/plain", func() Sub { return subR8(false, false) }},
+	{"gsub8.1/back", func() Sub { return subR8(true, false) }},
+	{"gsub8.1/look", func() Sub { return subR8(false, true) }},
+	{"gsub8.1/both", func() Sub { return subR8(true, true) }},
 }
 
 // ---- contextual parents ----
@@ -276,6 +303,7 @@ var childKinds = []childKind{
 	{"ligAM", Sub{Kind: "lig", LigSets: []LigSet{{gA, []Lig{{[]int{gM}, gA}}}, {gM, []Lig{{[]int{gA}, gA}}}}}},
 	{"ligA", Sub{Kind: "lig", LigSets: []LigSet{{gA, []Lig{{[]int{}, gB}}}}}},
 	{"ligAMA", Sub{Kind: "lig", LigSets: []LigSet{{gA, []Lig{{[]int{gM, gA}, gY}, {[]int{gA, gA}, gA}}}}}},
+	{"rev8", Sub{Kind: "r8", Map: [][2]int{{gA, gY}, {gM, gA}}, Covs: [][]int{{gA, gL}}, Covs3: [][]int{{gA, gM}}}},
 }
 
 func fv(name string) flagVar {
@@ -334,6 +362,19 @@ func catalogue() []entry {
 	for _, order := range [][]int{{0, 1}, {1, 0}, {0, 0}, {1, 0, 1}, {2, 0, 1}, {0, 1, 2}, {2, 2}, {7, 0}, {}} {
 		out = append(out, entry{gd: gd, ll: []Lookup{ab, ba, mm}, order: order,
 			alphabet: []int{gA, gM, gL, gB}, labels: []string{"lookup-order"}})
+	}
+
+	// 3b. mark-to-base followed by mark-to-mark (mark2 has been moved: the
+	//     engine's known divergence), reverse chaining combined with others
+	for _, f := range []flagVar{fv("none"), fv("att1"), fv("mfs2"), fv("base")} {
+		mbl := Lookup{0, 0, []Sub{{Kind: "mb", Marks: []MarkRec{{gM, 0, 400, 0}, {gN, 0, 10, -10}},
+			Bases: []BaseRec{{gA, []*[2]int{{400, 1000}}}}}}}
+		mml := Lookup{f.flags, f.mfs, []Sub{subMM()}}
+		r8l := Lookup{f.flags, f.mfs, []Sub{subR8(true, false), subR8(false, true)}}
+		for _, order := range [][]int{{1}, {0, 1}, {1, 0}, {2}, {2, 1}, {2, 2}} {
+			out = append(out, entry{gd: gd, ll: []Lookup{mbl, mml, r8l}, order: order,
+				alphabet: []int{gA, gM, gN, gB}, labels: []string{"lookup-order-mm-r8", "flags:" + f.name}})
+		}
 	}
 
 	// 4. contextual lookups: format x parent flags x child x child flags x action pattern
@@ -433,12 +474,12 @@ func catalogue() []entry {
 	// 6. contextual positioning (GPOS 7/8 with GPOS children)
 	for _, sh := range shapes {
 		for _, pf := range []flagVar{fv("none"), fv("marks")} {
-			for ci, child := range []Sub{subP1(), subPP1(), subMB()} {
+			for ci, child := range []Sub{subP1(), subPP1(), subMB(), subMM()} {
 				ll := []Lookup{
 					{pf.flags, pf.mfs, []Sub{ctxSubW(sh.format, 2, sh.back, sh.look, sh.wide, []Action{{1, 1}, {0, 1}})}},
 					{0, 0, []Sub{child}},
 				}
-				out = append(out, entry{gd: gd, ll: ll, order: []int{0}, alphabet: []int{gA, gM, gB},
+				out = append(out, entry{gd: gd, ll: ll, order: []int{0}, alphabet: []int{gA, gM, gN},
 					labels: []string{"ctx-gpos:" + sh.format, "ctx-flags:" + pf.name, fmt.Sprintf("gpos-child:%d", ci)},
 					ext:    true})
 			}
@@ -567,7 +608,7 @@ func randSub(r *vlib.Rand, alphabet []int, nl int, allowCtx bool) Sub {
 		}
 		return s
 	}
-	kinds := []string{"s1", "s2", "mul", "alt", "lig", "lig", "p1", "p2", "pp1", "pp2", "mb"}
+	kinds := []string{"s1", "s2", "mul", "alt", "lig", "lig", "p1", "p2", "pp1", "pp2", "mb", "mm", "r8"}
 	if allowCtx {
 		kinds = append(kinds, "c1", "c2", "c3", "k1", "k2", "k3", "c1", "c3", "k1", "k3")
 	}
@@ -698,7 +739,18 @@ func randSub(r *vlib.Rand, alphabet []int, nl int, allowCtx bool) Sub {
 			}
 			s.PairMat = append(s.PairMat, row)
 		}
-	case "mb":
+	case "r8":
+		for _, g := range distinct() {
+			s.Map = append(s.Map, [2]int{g, vlib.Pick(r, alphabet)})
+		}
+		s.Covs, s.Covs3 = [][]int{}, [][]int{}
+		for i, n := 0, r.Range(0, 2); i < n; i++ {
+			s.Covs = append(s.Covs, randSubset(r, alphabet))
+		}
+		for i, n := 0, r.Range(0, 2); i < n; i++ {
+			s.Covs3 = append(s.Covs3, randSubset(r, alphabet))
+		}
+	case "mb", "mm":
 		nc := r.Range(1, 2)
 		for _, g := range distinct() {
 			s.Marks = append(s.Marks, MarkRec{g, r.Intn(nc), r.Range(-300, 300), r.Range(-300, 300)})
